@@ -30,9 +30,14 @@ def emit_session(sess, path, qsteps=None):
         try:
             pre = oname(st["pre"])
             post = oname(st["post"])
-            term = "(check_step cfg %s %s %s %s %s)" % (
-                pre, emit.op(st["op"]), "true" if st["outcome"] == "ok" else "false",
-                emit.lst(emit.out_msg(m) for m in st["msgs"]), post)
+            if st["op"].get("reentry"):
+                term = "(check_rstep cfg %s %s %s %s %s %s)" % (
+                    pre, emit.op(st["op"]), emit.lst(emit.op(x) for x in st["op"]["reentry"]), "true" if st["outcome"] == "ok" else "false",
+                    emit.lst(emit.out_msg(m) for m in st["msgs"]), post)
+            else:
+                term = "(check_step cfg %s %s %s %s %s)" % (
+                    pre, emit.op(st["op"]), "true" if st["outcome"] == "ok" else "false",
+                    emit.lst(emit.out_msg(m) for m in st["msgs"]), post)
         except ValueError as e:
             skipped.append((st["i"], str(e)))
             continue
